@@ -68,14 +68,26 @@ inductive Link where
   | healthy
   | closed
   | missing
+  /-- transmitter present whose `Tx::send` fails with an error that is not `is_unrecoverable()`
+  (impossible for the default `UnboundedTx`, possible for any other `Tx` the generic
+  `MultiExchangeTxMap<Tx>` is instantiated with, e.g. a bounded channel that is full) -/
+  | unhealthy
   deriving DecidableEq, Repr, Inhabited
 
-/-- Both are `EngineError::Unrecoverable`: `IndexError` (no link for the exchange / index out of
-range) and `ExecutionChannelTerminated` (receiver gone). -/
+/-- `index` and `terminated` are `EngineError::Unrecoverable`: `IndexError` (no link for the
+exchange / index out of range) and `ExecutionChannelTerminated` (receiver gone); `unhealthy` is
+`EngineError::Recoverable(ExecutionChannelUnhealthy)` (send_requests.rs:104-117). -/
 inductive SendError where
   | index
   | terminated
+  | unhealthy
   deriving DecidableEq, Repr, Inhabited
+
+/-- `EngineError::Unrecoverable(_)` -/
+def SendError.unrecoverable : SendError → Bool
+  | .index => true
+  | .terminated => true
+  | .unhealthy => false
 
 /-- `InstrumentState` restricted to what commands read. `position` is `(side, quantity_abs)`. -/
 structure Instr where
@@ -109,6 +121,7 @@ def linkResult (links : List Link) (exchange : Nat) : Option SendError :=
   | some .healthy => none
   | some .closed => some .terminated
   | some .missing => some .index
+  | some .unhealthy => some .unhealthy
   | none => some .index
 
 /-- Result of `send_requests`: `sent`, `errors` (partition preserving order). -/
@@ -119,8 +132,8 @@ structure SendOut (α : Type) where
 
 def SendOut.empty {α : Type} : SendOut α := ⟨[], []⟩
 def SendOut.isEmpty {α : Type} (o : SendOut α) : Bool := o.sent.isEmpty && o.errors.isEmpty
-/-- every send error of this model is unrecoverable -/
-def SendOut.fatal {α : Type} (o : SendOut α) : Bool := !o.errors.isEmpty
+/-- `unrecoverable_errors()` is not `None`: some reported error is `EngineError::Unrecoverable` -/
+def SendOut.fatal {α : Type} (o : SendOut α) : Bool := o.errors.any fun x => x.2.unrecoverable
 
 /-- `send_requests` for one request kind: the requests whose link is healthy are delivered (appended
 to the log, in order) and reported `sent`; the others are reported with their error. -/
